@@ -50,6 +50,9 @@ type Free struct {
 	LeaseMs int `json:"lease_ms,omitempty"`
 	Keys    int `json:"keys,omitempty"`
 	DurMs   int `json:"dur_ms,omitempty"` // race variant: the goroutines stop starting rounds after this long
+	// Scn != "": a scripted lease scenario (lease.go) with lease LeaseMs; HoldU = the long hold in units of TTL/20
+	Scn   string `json:"scn,omitempty"`
+	HoldU int    `json:"hold_u,omitempty"`
 }
 
 // sigStore passes every call through. The renewal call of the CURRENT tenure of a lock name (it presents
